@@ -104,3 +104,74 @@ def check(run) -> None:
             run.fail(clause, {"clause": clause, "family": "reflwrite"}, c, msg, replay={"reflwrite": c})
     if cases:
         run.sample({"family": "ReflWrite", "case": cases[len(cases) // 2]}, cap=2)
+
+
+# ---- the LLM planner's reflection request is a request of THAT turn's plan -------------------------------------------
+ANSWERS = {
+    "req": '{"plan": ["a"], "rationale": "r", "reflection": true}',
+    "noreq": '{"plan": ["a"], "rationale": "r", "reflection": false}',
+    "nokey": '{"plan": ["a"], "rationale": "r"}',
+    "prose": "I would rather not answer in JSON today.",
+    "badschema": '{"plan": "x", "reflection": true}',
+    "raise": None,          # the adapter raises (no fixture for this prompt)
+    "noadapter": "NOADAPTER",
+}
+
+
+class _Planner:
+    def __init__(self, text):
+        self.text = text
+
+    def generate(self, prompt, max_tokens=256, temperature=0.2, **kw):
+        if self.text is None:
+            raise RuntimeError("verif: no fixture for this prompt")
+        return SimpleNamespace(text=self.text, tokens=1, truncated=False)
+
+
+class _AttrDict(dict):
+    __getattr__ = dict.get
+
+    def __setattr__(self, k, v):
+        self[k] = v
+
+
+def planner_flag_case(case) -> List[Tuple[str, str]]:
+    """run_policy (LLM planner) over a history of model answers on ONE state: after every call the reflection request
+    stashed for the orchestrator is true only if THIS call's answer is a valid plan that requests reflection"""
+    from .. import engine as E
+    import clematis.engine.stages.t3.policy as P
+    cfg = {"t3": {"backend": "llm", "llm": {"provider": "fixture"}}}
+    state = [SimpleNamespace(logs=[]), _AttrDict(logs=[]), {"logs": []}][case["skind"]]
+    for step, name in enumerate(case["h"]):
+        text = ANSWERS[name]
+        ctx = SimpleNamespace(turn_id=step + 1, agent_id="A", cfg=cfg, input_text="hello", now=None)
+
+        def getter(c, _t=text):
+            if _t == "NOADAPTER":
+                raise RuntimeError("verif: adapter construction failed")
+            return _Planner(_t)
+        with E.patched_attr(P, _get_llm_adapter_from_cfg=getter):
+            try:
+                P.run_policy({"name": "llm"}, {}, cfg, ctx, state=state)
+            except Exception as e:      # noqa: BLE001
+                return [("TurnArtefactsUntouched", f"run_policy raised {type(e).__name__}: {e} on answer {name!r}")]
+        flag = state.get("_planner_reflection_flag") if isinstance(state, dict) else getattr(state, "_planner_reflection_flag", None)
+        if bool(flag) and name != "req":
+            return [("NothingWhenClosed", f"LLM planner answers {case['h'][:step + 1]} on one state ({type(state).__name__}): after the answer {name!r} "
+                                          f"(which requests nothing) the reflection request handed to the orchestrator is {flag!r}")]
+    return []
+
+
+def check_planner_flag(run) -> None:
+    import itertools
+    from ..util import pmap
+    names = sorted(ANSWERS)
+    cases = [{"h": list(h), "skind": k} for n in (1, 2, 3) for h in itertools.product(names, repeat=n) if (n < 3 or h[0] == "req" or h[1] == "req")
+             for k in range(3) if not run.quick or n < 3 or k == (len(h[2]) % 3)]
+    for c, fails in zip(cases, pmap(planner_flag_case, cases, chunk=64)):
+        run.traces += 1
+        run.case(("planner_flag", json.dumps(c, sort_keys=True)))
+        if not fails:
+            run.ok("Reflection.planner_request_is_per_turn")
+        for clause, msg in fails:
+            run.fail(clause, {"clause": clause, "family": "planner_flag"}, c, msg, replay={"planner_flag": c})
